@@ -106,6 +106,13 @@ def cell_values():
     )
 
 
+def _worker_init():
+    # every worker gets its own default temp directory: thousands of chunk files per second created and unlinked in ONE
+    # directory by many processes contend on that directory
+    d = tempfile.mkdtemp(prefix='w%d_' % os.getpid(), dir=tlc.scratch())
+    tempfile.tempdir = d
+
+
 def pmap(func, items, procs=None, chunksize=4, min_items=64):
     """Order-preserving parallel map over forked worker processes (the replay of TLC-generated cases on petl is
     CPU-bound, single-threaded Python).  `func` must be a module-level function; it runs in a child that inherited
@@ -119,7 +126,7 @@ def pmap(func, items, procs=None, chunksize=4, min_items=64):
     try:
         import multiprocessing as mp
         ctx = mp.get_context('fork')
-        pool = ctx.Pool(procs)
+        pool = ctx.Pool(procs, initializer=_worker_init)
     except Exception:
         return [func(x) for x in items]
     try:
